@@ -30,6 +30,8 @@ impl Alphabet {
                 Item::bytes(&[1]),
                 Item::text("a"),
                 Item::text(""),
+                // well-formed CBOR whose text is not valid UTF-8
+                Item::Text(vec![0xff], StrForm::Def(W::Imm)),
                 NULL,
                 TRUE,
                 Item::Simple(32),
@@ -38,7 +40,8 @@ impl Alphabet {
                 Item::f64(1.5f64.to_bits()),
             ],
             byte_chunks: vec![vec![], vec![2]],
-            text_chunks: vec![vec![], vec![b'b']],
+            // c3 / a9: a two-byte character split over two chunks (each chunk is invalid on its own)
+            text_chunks: vec![vec![], vec![b'b'], vec![0xc3], vec![0xa9]],
             tags: vec![1],
             arrays: true,
             maps: true,
@@ -49,9 +52,9 @@ impl Alphabet {
     /// A reduced alphabet for larger trees (one leaf per shape that decoders distinguish).
     pub fn medium() -> Self {
         Alphabet {
-            leaves: vec![Item::uint(0), Item::uint(24), Item::nint(0), Item::bytes(&[1]), Item::text("a"), NULL, Item::f16(0x3e00)],
+            leaves: vec![Item::uint(0), Item::uint(24), Item::nint(0), Item::bytes(&[1]), Item::text("a"), Item::Text(vec![0xc3], StrForm::Def(W::Imm)), NULL, Item::f16(0x3e00)],
             byte_chunks: vec![vec![2]],
-            text_chunks: vec![vec![b'b']],
+            text_chunks: vec![vec![b'b'], vec![0xa9]],
             tags: vec![1],
             arrays: true,
             maps: true,
